@@ -673,7 +673,7 @@ namespace sim
   }
   static void on_sigsegv(int)
   {
-    fail("SIGSEGV", "segmentation fault");
+    fail("SIGSEGV", "fatal signal (SIGSEGV/SIGBUS/SIGFPE/SIGILL): wild memory access or arithmetic trap");
   }
   static void on_sigalrm(int)
   {
@@ -702,7 +702,18 @@ namespace sim
       handlers = true;
       signal(SIGABRT, on_sigabrt);
       signal(SIGALRM, on_sigalrm);
-      if(!getenv("SIM_NO_SEGV_HANDLER")) { /* ASan installs its own SEGV handler; keep it */ }
+#ifdef SIM_FLAVOUR_GUARD
+      // no sanitizer runtime in this flavour: a wild access must still end the run as a violation with its trace
+      // (in the sanitizer flavour ASan owns SIGSEGV and reports through abort())
+      {
+        static char altstack[1 << 16];
+        stack_t ss; ss.ss_sp = altstack; ss.ss_size = sizeof(altstack); ss.ss_flags = 0;
+        sigaltstack(&ss, nullptr);
+        struct sigaction sa; memset(&sa, 0, sizeof(sa));
+        sa.sa_handler = on_sigsegv; sa.sa_flags = SA_ONSTACK | SA_NODEFER;
+        sigaction(SIGSEGV, &sa, nullptr); sigaction(SIGBUS, &sa, nullptr); sigaction(SIGFPE, &sa, nullptr); sigaction(SIGILL, &sa, nullptr);
+      }
+#endif
       std::set_terminate(on_terminate);
       (void)on_sigsegv;
     }
